@@ -489,8 +489,24 @@ fn wd_plans(thorough: bool) -> Vec<Plan> {
 
 // ---------------------------------------------------------------- C06: lifecycle and timing
 fn life_plans(thorough: bool) -> Vec<Plan> {
+    vec![life_plan(thorough, false), life_plan(thorough, true)]
+}
+/// `exit == true`: the "+exit" plan — every holder can unstake everything it holds, so that the pending
+/// batch can hold the whole outstanding LST supply when it falls due (a full exit / single-holder
+/// deployment); explored from the short seeds only, one level shallower.
+fn life_plan(thorough: bool, exit: bool) -> Plan {
     let k = K::k0();
-    let seeds = named(
+    let seeds = if exit {
+        named(
+            &k,
+            vec![
+                ("two_stakes", small_funds(|| seed_two_stakes(&k), 0)),
+                ("rate_up", small_funds(|| seed_rate_up(&k), 0)),
+                ("rate_down", small_funds(|| seed_rate_down(&k), 0)),
+            ],
+        )
+    } else {
+    named(
         &k,
         vec![
             ("fresh", small_funds(|| seed_fresh(&k), 0)),
@@ -504,12 +520,13 @@ fn life_plans(thorough: bool) -> Vec<Plan> {
             ("many_requesters", small_funds(|| seed_many_requesters(&k, 120), 0)),
             ("crowd", small_funds(|| seed_crowd(&k, 1_100), 0)),
         ],
-    );
+    )
+    };
     let mut o = MenuOpt::base();
     o.stakers = vec![];
     o.stake_amts = vec![];
     o.rewards = vec![];
-    o.unstake = vec![Frac::Fixed(20), Frac::Fixed(1)];
+    o.unstake = if exit { vec![Frac::All] } else { vec![Frac::Fixed(20), Frac::Fixed(1)] };
     o.unstakers = vec![u(1), u(2)];
     o.funded_variants = true;
     o.time_boundaries = true;
@@ -554,12 +571,16 @@ fn life_plans(thorough: bool) -> Vec<Plan> {
         }
         a
     });
-    let mut sc = mk("life-K0", vec!["C06"], seeds, menu);
+    let mut sc = mk(if exit { "life-K0+exit" } else { "life-K0" }, vec!["C06"], seeds, menu);
     sc.goal = Some(Box::new(|pre, a, ap, _post| {
         let mut g = vec![];
         match a {
             Act::Exec { msg: ExecuteMsg::SubmitBatch {}, .. } => {
                 let due = pending_due(pre);
+                let supply = pre.w.state().total_liquid_stake_token.u128();
+                if ap.out.ok && supply > 0 && pre.m.batches.get(&pre.m.pending).map(|b| b.total) == Some(supply) {
+                    g.push("submit_accepted_whole_supply".into());
+                }
                 if pre.w.time + 1 == due && !ap.out.ok {
                     g.push("submit_refused_one_second_early".into());
                 }
@@ -586,18 +607,18 @@ fn life_plans(thorough: bool) -> Vec<Plan> {
         }
         g
     }));
-    let depth = if thorough { 8 } else { 7 };
-    vec![Plan {
-        sc,
-        depth,
-        required: vec![
-            "goal:submit_refused_one_second_early",
-            "goal:submit_accepted_exactly_at_deadline",
-            "goal:submit_accepted_after_deadline",
-            "goal:deliver_refused_one_second_early",
-            "goal:deliver_accepted_exactly_at_deadline",
-        ],
-    }]
+    let depth = if thorough { 8 } else { 7 } - if exit { 1 } else { 0 };
+    let mut required = vec![
+        "goal:submit_refused_one_second_early",
+        "goal:submit_accepted_exactly_at_deadline",
+        "goal:submit_accepted_after_deadline",
+        "goal:deliver_refused_one_second_early",
+        "goal:deliver_accepted_exactly_at_deadline",
+    ];
+    if exit {
+        required.push("goal:submit_accepted_whole_supply");
+    }
+    Plan { sc, depth, required }
 }
 
 // ---------------------------------------------------------------- C07: IBC tracking / recovery
